@@ -118,7 +118,16 @@
       only: then no position is strictly inside a backtick run and `back_L2` applies).  Whole document
       (`Lemmas/MemoSafeLamDoc.lean`): `doc_total_nocode`, `doc_total_nodouble`, `doc_total_src` (hypotheses on
       the SOURCE only: no tab, no two adjacent backticks), `doc_total_stock` (below).
-      NOT YET COVERED: the code-span rule on contents WITH runs of two or more backticks (`BackL2`: `back_L2` needs the two caches to agree on
+      FOURTH PART (`Lemmas/MemoSafeLamCS*.lean`, namespace `MdIt.Inline.CS`: copies of the top-frame and
+      nested-frame developments with two more state invariants — `MK`: every unit memo entry whose end
+      is strictly inside a backtick run is marked in the CURRENT `inside_failed`; `IFP`: a look-ahead or
+      nested real state at a position strictly inside a run has it marked — `BackOK` with a `NoCut`
+      premise, run-complete marks `InsideFull`, `endHyp_holds`: with `NoEscTickTick` the unit step at a
+      backtick is the only token that ends strictly inside a run): `parseInline_total_noesctick` — total
+      for EVERY coherent chain, the stock chain with strikethrough included, on contents without
+      backslash-backtick-backtick (code spans with ANY backtick runs); `doc_total_noesctick`,
+      `doc_total_src_noesc`, `doc_total_stock`.
+      NOT YET COVERED: contents with an escaped backtick directly in front of a backtick (K3, see OPEN) (`BackL2`: `back_L2` needs the two caches to agree on
       `inside_failed.contains pos` — true at every position not strictly inside a backtick run
       (`inside_agree_of_not_interior`); at a position strictly inside a run (reached after a failed
       opener, or behind an escaped backtick) it is a fact about the HISTORY of the shared cache: the
@@ -154,6 +163,7 @@ import MdIt.Lemmas.MemoSafeWindow2
 import MdIt.Lemmas.MemoSafeLamFinal
 import MdIt.Lemmas.MemoSafeLamDoc
 import MdIt.Lemmas.MemoSafeLamBack2
+import MdIt.Lemmas.MemoSafeLamCSDoc
 import MdIt.Props.InlineTotal
 
 namespace MdIt.Inline
@@ -291,6 +301,28 @@ example (n : Nat) (content : List Char) (hnd : NoDoubleTick content) :
 example : NoDoubleTick "[a `b` ![c](d)](e) `f`".toList ∧ ¬ NoDoubleTick "a ``b`` c".toList := by
   decide +kernel
 
+/-! ## J''. the result of the fourth part -/
+
+/-- **C01, inline pass: `md.inline.parse` is total for EVERY `ChainCoherent` chain on contents without
+    backslash-backtick-backtick** — code spans with any runs of backticks, links, images, emphasis-like
+    pairs, …; every `max_nesting`, reference map, `MapOK` content. -/
+theorem parseInline_total_noesctick (cfg : Cfg) (hc : ChainCoherent cfg = true)
+    (hone : cfg.chain.count .link ≤ 1 ∧ cfg.chain.count .image ≤ 1) {content : List Char}
+    {mapping : Srcmap} (hm : MapOK content mapping) (hne : CS.NoEscTickTick content) :
+    ∃ cs, parseInline cfg content mapping = .ok cs :=
+  CS.parseInline_total_noesc cfg hc hone hm hne
+
+-- the STOCK chain with strikethrough: every one-line content without "\``" parses, whatever `max_nesting`
+example (n : Nat) (content : List Char) (hne : CS.NoEscTickTick content) :
+    ∃ cs, parseInline (stockCfg n) content [(0, 0)] = .ok cs :=
+  parseInline_total_noesctick (stockCfg n)
+    (by show ChainCoherent (stockCfg 0) = true; decide +kernel)
+    (by show (stockCfg 0).chain.count .link ≤ 1 ∧ (stockCfg 0).chain.count .image ≤ 1; decide)
+    (mapOK_single content) hne
+
+example : CS.NoEscTickTick "a ``b ` c`` [```d```](e) \\` f".toList ∧
+    ¬ CS.NoEscTickTick "a \\``b`".toList := by decide +kernel
+
 /-! ## executable versions, examples -/
 
 /-- executable `Laminar` -/
@@ -378,38 +410,23 @@ example : entrySafe (stockCfg 2) "[[[a](b)](c)](d) `[`".toList [(0, 0)] = true :
 example : entrySafe witnessCfg witness [(0, 0)] = false := by decide +kernel
 
 /-
-  OPEN after the third part.
+  OPEN after the fourth part.
 
-  PROVED: `parseInline_total_coherent_nocode` (every coherent chain without code spans, images included),
-  `parseInline_total_coherent_nodouble` (EVERY coherent chain on contents without two adjacent
-  backticks), `doc_total_nocode`, `doc_total_nodouble`.
-  REMAINING for `parseInline_total (hc : ChainCoherent cfg = true) (hm : MapOK c m)`: ONE member of
-  `NestHyps` — `BackL2 cfg BInv src Mtop` for contents WITH runs of two or more backticks.  `back_L2`
-  (`Lemmas/MemoSafeLamBack.lean`) proves it from
-      st0.backticks.insideFailed.contains pos = s.backticks.insideFailed.contains pos
-  between the witness state and the nested real state; `inside_failed` is part of the MEANING of the
-  rule (`back_L2_needs_inside`), so this is a fact about the run.  What gives it (all three hold in 5
-  million brute-force runs, checks K1–K3 of `/verif/work/w9-memo/Brute.lean`):
-   (K2) state invariant on (memo, cache): every unit memo entry `p ↦ p+1` with backticks at `p`, `p+1` has
-        `p+1` in the CURRENT `inside_failed` — inductive: the cache only grows
-        (`ruleBackticks_inside_mono`), and the step that makes the entry marks `p+1`
-        (`Lemmas/MemoSafeLamBack2.lean`, proved: `back_decline_marks`, with run-complete marks
-        `InsideFull` / `insideFull_ruleBackticks`, preserved under `NoCut` of the `pos_max` of the call — so `BackOK` needs a `NoCut`
-        premise, i.e. `Lemmas/MemoSafeLamTop.lean` / `MemoSafeLamNest.lean` re-threaded in copies);
-   (K1) every state (look-ahead memo miss or real) whose position `k` is strictly inside a backtick run has
-        `k` in `inside_failed` unless the backtick at `k-1` is escaped: the state came from the entry /
-        token that ENDS at `k`; no token but the unit step at a backtick and the escape `\`` ends strictly
-        inside a run (`MemoSafeLamBack2.lean`, proved for the flat rules: `text_end_not_inside` …
-        `backticks_end_not_inside`, `escape_end_inside_iff`; still to do: a link / image token ends with `)` or `]`); needs `Just`, `TopInv`, `NF` extended by the
-        position fact "`pos` is a walk start or the end of a memo entry / of the previous real token";
-   (K3) an escape landing `p ↦ p+2` (`\`` followed by a backtick) has `p+2` NOT in `inside_failed`: no
-        rule call ever happens at the escaped backtick `p+1`.  In nested frames this is the memo path;
-        in the TOP frame it needs that the real tokenizer never stops at an escaped character — a
-        parity argument along the run of backslashes (both the real tokenizer and every walk enter a
-        backslash run at its first character), i.e. flat-rule tiling consistency of the top frame,
-        which the present architecture does not otherwise need.
-  With (K1), (K2) alone: the theorem for contents without backslash-backtick-backtick.
-  `doc_total` for the unconditional theorem is then `doc_total_nodouble` without its last hypothesis.
+  PROVED: `parseInline_total_noesctick` (EVERY coherent chain on contents without
+  backslash-backtick-backtick), `doc_total_noesctick`, `doc_total_src_noesc`, `doc_total_stock`; earlier:
+  `parseInline_total_coherent_nocode`, `parseInline_total_coherent_nodouble`, `doc_total_nocode`, ….
+  REMAINING for `parseInline_total (hc : ChainCoherent cfg = true) (hm : MapOK c m)` without text
+  hypothesis: the ESCAPE LANDING (K3 of `/verif/work/w9-memo/Brute.lean`, 0 exceptions in 5 million runs):
+  a position `k` behind `\`` with a backtick at `k` is "strictly inside a backtick run" as far as the
+  characters go, but the code-span rule treats it as a run start, and `k` must NOT be in `inside_failed`
+  in either cache.  `EndHyp` is where `NoEscTickTick` is used (`endHyp_holds`: the escape token is the one
+  exception of `rule_end_not_interior`); without it `IFP` has to be refined to "strictly inside a run AND
+  reached by the unit step from the backtick before", and one needs: no rule call ever happens AT the
+  escaped backtick `k - 1` (then nothing marks `k`: `InsideInv` + the marks come from opener calls only).
+  In nested frames that is the memo path; in the TOP frame it is a parity argument along the run of
+  backslashes in front (the real tokenizer and every label walk enter a backslash run at its first
+  character — tokens end in front of a backslash, walks start behind `[`), i.e. flat-rule tiling
+  consistency of the top frame, which the present architecture does not otherwise need.
 -/
 
 end MdIt.Inline
@@ -439,9 +456,21 @@ example : (∃ t, parseDoc (exCfg false 100) memoDoc = .ok t) ∧
 
 /-- **C01 for the STOCK configuration with strikethrough** (`exCfg`: CommonMark block and inline chains,
     `*`, `_`, `~~`), any `max_nesting`, sourcepos on or off: `md.parse(src)` returns a tree and `render` /
-    `xrender` return a string for EVERY source without tab and without two adjacent backticks, within
-    the `i32` size bound — no evaluation, no hypothesis on the run. -/
+    `xrender` return a string for EVERY source without tab and without backslash-backtick-backtick (code
+    spans with any number of backticks are allowed), within the `i32` size bound — no evaluation, no
+    hypothesis on the run. -/
 theorem doc_total_stock (sp : Bool) (mn : Nat) (src : List Char)
+    (hsmall : 4 * Lines.byteLen src + 8 < 2147483648) (htab : '\t' ∉ src)
+    (hne : Inline.CS.NoEscTickTick src) :
+    (∃ t, parseDoc (exCfg sp mn) src = .ok t) ∧ ∀ x, ∃ html, renderDoc x (exCfg sp mn) src = .ok html :=
+  doc_total_src_noesc (exCfg sp mn) src
+    (by show Inline.ChainCoherent ((exCfg false 0).inlineCfg []) = true; decide +kernel)
+    (by show (exCfg false 0).inlineChain.count .link ≤ 1 ∧ (exCfg false 0).inlineChain.count .image ≤ 1
+        decide +kernel)
+    hsmall (by show (exCfg false 0).hasPara = true; decide +kernel) htab hne
+
+/-- the earlier form: no two adjacent backticks -/
+theorem doc_total_stock_nodouble (sp : Bool) (mn : Nat) (src : List Char)
     (hsmall : 4 * Lines.byteLen src + 8 < 2147483648) (htab : '\t' ∉ src)
     (hnd : Inline.NoDoubleTick src) :
     (∃ t, parseDoc (exCfg sp mn) src = .ok t) ∧ ∀ x, ∃ html, renderDoc x (exCfg sp mn) src = .ok html :=
@@ -451,8 +480,12 @@ theorem doc_total_stock (sp : Bool) (mn : Nat) (src : List Char)
         decide +kernel)
     hsmall (by show (exCfg false 0).hasPara = true; decide +kernel) htab hnd
 
-example : (∃ t, parseDoc (exCfg true 100) memoDoc = .ok t) ∧
-    ∀ x, ∃ html, renderDoc x (exCfg true 100) memoDoc = .ok html :=
-  doc_total_stock true 100 memoDoc (by decide +kernel) (by decide +kernel) (by decide +kernel)
+/-- a document with multi-backtick code spans -/
+def memoDoc2 : List Char :=
+  "> ![a [b](c)](d) [x]\n\n- *e* ~~s~~ [f ``g ` h``](i) ```j``` \\` k\n\n[x]: /u".toList
+
+example : (∃ t, parseDoc (exCfg true 100) memoDoc2 = .ok t) ∧
+    ∀ x, ∃ html, renderDoc x (exCfg true 100) memoDoc2 = .ok html :=
+  doc_total_stock true 100 memoDoc2 (by decide +kernel) (by decide +kernel) (by decide +kernel)
 
 end MdIt.Pipeline
